@@ -11,6 +11,7 @@ namespace FM.Baseline
 def patterns_C01 : List (String × String × String) := [
   ("linewrapping/line_wrappers.py:_line_break_re", "\\\\\\n|  \\n", "32"),
   ("linewrapping/line_wrappers.py:<module>:re.compile", "\\\\\\n|  \\n", "-"),
+  ("linewrapping/text_wrapping.py:_PLACEHOLDER_RE", "\x00AC([0-9]+)\x00", "32"),
   ("linewrapping/text_wrapping.py:_md_numeral_pat", "^[0-9]+[.)]$", "32"),
   ("linewrapping/text_wrapping.py:_md_specials_pat", "^([-*+>]|#+)$", "32"),
   ("linewrapping/text_wrapping.py:<module>:re.compile", "^([-*+>]|#+)$", "-"),
